@@ -490,3 +490,87 @@ theorem apLoad_ne_bad (g : List AObj) : ∀ (d k : Nat), apLoad g d k ≠ .panic
     · exact ⟨apFold_ne _ .panic _ _ (by simp) (fun v => (ih v).1), apFold_ne _ .oof _ _ (by simp) (fun v => (ih v).2)⟩
 
 end TypedLoad
+
+/-! instrumented load: same answer; the ladder -/
+namespace TypedLoad
+
+theorem loadN_fold_fst (g : Graph) (tol : Bool) (fuel : Nat) (ch : List Nat)
+    (ih : ∀ k, (loadN g tol fuel ch k).1 = load g tol fuel ch k) :
+    ∀ (fs : List Field) (a : Out Unit) (c : Nat),
+      (fs.foldl (fun (acc : Out Unit × Nat) f =>
+        match acc.1 with
+        | .ok _ =>
+          let r := loadN g tol fuel ch f.target
+          (fieldOutcome g tol f r.1, acc.2 + r.2)
+        | _ => acc) (a, c)).1
+      = fs.foldl (fun acc f => seqOut acc (fun _ => fieldOutcome g tol f (load g tol fuel ch f.target))) a := by
+  intro fs
+  induction fs with
+  | nil => intro a c; rfl
+  | cons f fs ihf =>
+    intro a c
+    simp only [List.foldl_cons]
+    cases a with
+    | ok u => dsimp only; rw [ihf, ih]; rfl
+    | err => dsimp only; rw [ihf]; rfl
+    | panic => dsimp only; rw [ihf]; rfl
+    | oof => dsimp only; rw [ihf]; rfl
+
+theorem loadN_fst (g : Graph) (tol : Bool) :
+    ∀ fuel chain k, (loadN g tol fuel chain k).1 = load g tol fuel chain k := by
+  intro fuel
+  induction fuel with
+  | zero => intro chain k; simp [loadN, load]
+  | succ fuel ih =>
+    intro chain k
+    unfold loadN load
+    by_cases h1 : k ∈ chain
+    · simp [h1]
+    · by_cases h2 : chain.length ≥ maxNest
+      · simp [h1, h2]
+      · simp only [h1, h2, if_false]
+        cases hg : g[k]? with
+        | none => rfl
+        | some o =>
+          cases o with
+          | bad => rfl
+          | missing => rfl
+          | node tag fields => exact loadN_fold_fst g tol fuel (k :: chain) (fun k' => ih (k :: chain) k') fields (.ok ()) 1
+
+theorem ladder_inner (n i : Nat) (h : i < n) :
+    (ladder n)[i]? = some (Obj.node 0 [⟨i + 1, false, none, false⟩, ⟨i + 1, false, none, false⟩]) := by
+  simp [ladder, List.getElem?_append, h]
+
+theorem ladder_leaf (n : Nat) : (ladder n)[n]? = some (Obj.node 0 []) := by
+  simp [ladder]
+
+theorem loadN_ladder_aux (n : Nat) (hn : n < maxNest) (tol : Bool) :
+    ∀ (d k fuel : Nat) (chain : List Nat), k + d = n → chain.length = k → (∀ x ∈ chain, x < k) → d < fuel →
+      loadN (ladder n) tol fuel chain k = (.ok (), 2 ^ (d + 1) - 1) := by
+  intro d
+  induction d with
+  | zero =>
+    intro k fuel chain hk hl hc hf
+    obtain ⟨fuel, rfl⟩ : ∃ f, fuel = f + 1 := ⟨fuel - 1, by omega⟩
+    have hk' : k = n := by omega
+    subst hk'
+    have h1 : k ∉ chain := fun hm => Nat.lt_irrefl _ (hc k hm)
+    have h2 : ¬ chain.length ≥ maxNest := by omega
+    unfold loadN
+    simp only [h1, h2, if_false, ladder_leaf]
+    rfl
+  | succ d ih =>
+    intro k fuel chain hk hl hc hf
+    obtain ⟨fuel, rfl⟩ : ∃ f, fuel = f + 1 := ⟨fuel - 1, by omega⟩
+    have h1 : k ∉ chain := fun hm => Nat.lt_irrefl _ (hc k hm)
+    have h2 : ¬ chain.length ≥ maxNest := by omega
+    have hr := ih (k + 1) fuel (k :: chain) (by omega) (by simp [hl])
+      (by intro x hx; rcases List.mem_cons.mp hx with rfl | hx; omega; have := hc x hx; omega) (by omega)
+    unfold loadN
+    simp only [h1, h2, if_false, ladder_inner n k (by omega), List.foldl_cons, List.foldl_nil, hr, fieldOutcome]
+    have hp : 2 ^ (d + 1 + 1) = 2 * 2 ^ (d + 1) := by rw [Nat.pow_succ]; omega
+    have hpos : 0 < 2 ^ (d + 1) := Nat.pow_pos (by decide)
+    simp only [Prod.mk.injEq, true_and]
+    omega
+
+end TypedLoad
